@@ -18,6 +18,8 @@ import Driver.Descriptor
 import Driver.Payload
 import PsdVerif.Model.Payload3Resources
 import PsdVerif.Model.Payload3Adjust
+import PsdVerif.Model.Payload3Vector
+import PsdVerif.Model.Payload3Filter
 
 namespace Driver.Payload3
 open PsdVerif PsdVerif.Codec PsdVerif.Payload PsdVerif.Payload3 Driver Driver.Psd Driver.Payload
@@ -180,7 +182,62 @@ def unit8 : List (String × Entry) := [
   ("SelectiveColor", fixed SelectiveColor.codec (pPair pRow (pList pRow)) (tPair tRow (tList tRow)))
 ]
 
-def classes : List (String × Entry) := unit7 ++ unit8
+/-! ### unit 9 tokens: a path record is `<tag> ...`: 0 fill | 1 initial row | 2 clipboard row | 3 knot sel row | 4 subpath sel row <n> item*n -/
+
+partial def pPItem : P PItem := do
+  let tag ← pNat
+  match tag with
+  | 0 => pure .fill
+  | 1 => do let r ← pRow; pure (.initial r)
+  | 2 => do let r ← pRow; pure (.clipboard r)
+  | 3 => do let s ← pNat; let r ← pRow; pure (.knot s r)
+  | 4 => do let s ← pNat; let h ← pRow; let n ← pNat; let items ← pRep pPItem n; pure (.subpath s h items)
+  | _ => failure
+
+partial def tPItem : PItem → T
+  | .fill => ["0"]
+  | .initial r => "1" :: tRow r
+  | .clipboard r => "2" :: tRow r
+  | .knot s r => "3" :: (tNat s ++ tRow r)
+  | .subpath s h items => "4" :: (tNat s ++ tRow h ++ (toString items.length :: items.flatMap tPItem))
+
+def pVMS : P VectorMaskSetting := do let h ← pRow; let xs ← pList pPItem; pure ⟨h, xs⟩
+def tVMS (x : VectorMaskSetting) : T := tRow x.head ++ tList tPItem x.path
+
+def pVSCS : P VectorStrokeContentSetting := do
+  let k ← pBytes; let b ← pBlockD
+  pure ⟨k, b.version, b.name, b.classID, b.items⟩
+def tVSCS (x : VectorStrokeContentSetting) : T := tBytes x.key ++ tBlockD ⟨x.version, x.name, x.classID, x.items⟩
+
+def unit9 : List (String × Entry) := [
+  ("PathRecord", fixed PItem.codec pPItem tPItem),
+  ("Path", entry (fun _ pad => Path.codec pad) (pList pPItem) (tList tPItem)),
+  ("VectorMaskSetting", fixed VectorMaskSetting.codec pVMS tVMS),
+  ("VectorStrokeContentSetting", entry (fun _ pad => VectorStrokeContentSetting.codec rtb pad) pVSCS tVSCS)
+]
+
+/-! ### unit 10 tokens -/
+
+def pFEChannel : P FEChannel := do
+  let iw ← pNat
+  let c ← pOpt (do let c ← pNat; let d ← pBytes; pure (c, d))
+  pure ⟨iw, c⟩
+def tFEChannel (x : FEChannel) : T := tNat x.isWritten ++ tOpt (fun (cd : Nat × B) => tNat cd.1 ++ tBytes cd.2) x.content
+def pFEExtra : P FEExtra := do let iw ← pNat; let r ← pRow; let c ← pNat; let d ← pBytes; pure ⟨iw, r, c, d⟩
+def tFEExtra (x : FEExtra) : T := tNat x.isWritten ++ tRow x.rectangle ++ tNat x.compression ++ tBytes x.data
+def pFilterEffect : P FilterEffect :=
+  pPair pBytes (pPair pRow (pPair (pPair pRow (pPair pRow (pList pFEChannel))) (pOpt pFEExtra)))
+def tFilterEffect : FilterEffect → T :=
+  tPair tBytes (tPair tRow (tPair (tPair tRow (tPair tRow (tList tFEChannel))) (tOpt tFEExtra)))
+
+def unit10 : List (String × Entry) := [
+  ("FilterEffectChannel", fixed FEChannel.codec pFEChannel tFEChannel),
+  ("FilterEffectExtra", fixed FEExtra.codec pFEExtra tFEExtra),
+  ("FilterEffect", fixed FilterEffect.codec pFilterEffect tFilterEffect),
+  ("FilterEffects", fixed FilterEffects.codec (pPair pRow (pList pFilterEffect)) (tPair tRow (tList tFilterEffect)))
+]
+
+def classes : List (String × Entry) := unit7 ++ unit8 ++ unit9 ++ unit10
 
 def lookup (cls : String) : Option Entry := (classes.find? (fun e => e.1 == cls)).map (·.2)
 
